@@ -79,7 +79,7 @@ inline uint64_t hash_bytes(uint64_t h, const void *p, size_t n) {
 }
 
 struct Impl : Drv {
-    int n = 0, nrhs = 0, ldb = 0, stype_nr = 0;
+    int n = 0, nrhs = 0, ldb = 0, ldx = 0, stype_nr = 0;
     std::vector<int_t> colptr, rowind, perm_c, perm_r;
     std::vector<scalar_t> aval, bval, xval;
     SuperMatrix A, B, X, L, U, AC;
@@ -124,12 +124,15 @@ struct Impl : Drv {
         size_t sz = (size_t)ldb * (size_t)(nrhs > 0 ? nrhs : 0);
         bval.assign(sz ? sz : 1, to_native(cld(0, 0)));
         for (size_t i = 0; i < sz && i < Bv.size(); ++i) bval[i] = to_native(Bv[i]);
-        xval.assign(sz ? sz : 1, to_native(cld(0, 0)));
+        // X has its own leading dimension (any value >= n is legal, and it need not equal B's)
+        ldx = ldb + (ldb + nrhs + n) % 3;
+        size_t szx = (size_t)ldx * (size_t)(nrhs > 0 ? nrhs : 0);
+        xval.assign(szx ? szx : 1, to_native(cld(0, 0)));
         // poison X so that "left untouched" is observable
         for (size_t i = 0; i < xval.size(); ++i) xval[i] = to_native(cld(-7.25L - (ld)(i % 13), 0.5L));
         B.Stype = SLU_DN; B.Dtype = SLU_DT; B.Mtype = SLU_GE; B.nrow = n; B.ncol = nrhs; B.Store = &Bstore;
         Bstore.lda = ldb; Bstore.nzval = bval.data();
-        X = B; X.Store = &Xstore; Xstore.lda = ldb; Xstore.nzval = xval.data();
+        X = B; X.Store = &Xstore; Xstore.lda = ldx; Xstore.nzval = xval.data();
         ferr.assign(nrhs > 0 ? nrhs : 1, 0); berr.assign(nrhs > 0 ? nrhs : 1, 0);
     }
     void set_perm_c(const std::vector<int> &pc) override { perm_c.assign(pc.begin(), pc.end()); }
@@ -271,13 +274,13 @@ struct Impl : Drv {
     }
     bool have_LU() const override { return haveLU; }
 
-    std::vector<cld> dense_out(const std::vector<scalar_t> &v) {
+    std::vector<cld> dense_out(const std::vector<scalar_t> &v, int ld_) {
         std::vector<cld> o((size_t)n * (size_t)(nrhs > 0 ? nrhs : 0));
-        for (int j = 0; j < nrhs; ++j) for (int i = 0; i < n; ++i) o[(size_t)j * n + i] = from_native(v[(size_t)j * ldb + i]);
+        for (int j = 0; j < nrhs; ++j) for (int i = 0; i < n; ++i) o[(size_t)j * n + i] = from_native(v[(size_t)j * ld_ + i]);
         return o;
     }
-    std::vector<cld> get_B() override { return dense_out(bval); }
-    std::vector<cld> get_X() override { return dense_out(xval); }
+    std::vector<cld> get_B() override { return dense_out(bval, ldb); }
+    std::vector<cld> get_X() override { return dense_out(xval, ldx); }
     std::vector<int> get_perm_c() override { return std::vector<int>(perm_c.begin(), perm_c.end()); }
     std::vector<int> get_perm_r() override { return std::vector<int>(perm_r.begin(), perm_r.end()); }
     std::vector<cld> get_A_values() override { std::vector<cld> o(aval.size()); for (size_t i = 0; i < aval.size(); ++i) o[i] = from_native(aval[i]); return o; }
